@@ -6,4 +6,5 @@ CONSTANTS
   SweepFirst = 1000
   MaxFields = 128
   TruncEveryMax = 100000
+  RepeatMaxBytes = 8000000
 INVARIANTS StepsAgree IdentWellFormed PlanWellFormed Emit
